@@ -139,6 +139,8 @@ def triple_obligations(chk, mg, tier, rng):
             try:
                 out = X.run_single_path(fn, name="C11:" + name)
             except SymError as e:
+            # an undecided guard stops the symbolic run: look at the real code on concrete data before calling it inconclusive
+                replay_method(chk, mg, method, order, rng, "symbolic run stopped: %s" % e)
                 chk.inconclusive(name, str(e))
                 continue
             except Exception as e:
@@ -257,6 +259,8 @@ def lsq_obligations(chk, mg, tier, rng):
                 raise paths[0].exception or SymError("unexpected fork")
             out = paths[0].result
         except SymError as e:
+        # an undecided guard stops the symbolic run: look at the real code on concrete data before calling it inconclusive
+            replay_method(chk, mg, "lsq_poly", order, rng, "symbolic run stopped: %s" % e, nvol=nvol)
             chk.inconclusive(name, str(e))
             continue
         except Exception as e:
